@@ -123,4 +123,10 @@ MUTANTS = [
  {"id": "first-nonzero-helper-last-nonzero", "kind": "break", "edits": [{"patch": "/verif/benign/h10-dewey-2/patch.diff"}, ("src/dewey.rs", "components.iter().copied().find(|&n| n != 0)", "components.iter().copied().rev().find(|&n| n != 0)")], "expect": ["CMP-"]},
  {"id": "first-nonzero-helper-tail-one-late", "kind": "break", "edits": [{"patch": "/verif/benign/h10-dewey-2/patch.diff"}, ("src/dewey.rs", "first_nonzero(&rhs.version[common..])", "first_nonzero(&rhs.version[(common + 1).min(rhs.version.len())..])")], "expect": ["CMP-"]},
  {"id": "first-nonzero-helper-operands-swapped", "kind": "break", "edits": [{"patch": "/verif/benign/h10-dewey-2/patch.diff"}, ("src/dewey.rs", "        return dewey_test(l, op, 0);", "        return dewey_test(0, op, l);")], "expect": ["CMP-3"]},
+
+ # the bounds loop of Dewey::matches moved into a helper with its loop (spliced into matches() for judging)
+ {"id": "bounds-loop-in-helper-benign", "kind": "benign", "edits": [{"patch": "/verif/benign/u-dewey-bounds-helper/patch.diff"}]},
+ {"id": "bounds-loop-in-helper-any-bound", "kind": "break", "edits": [{"patch": "/verif/benign/u-dewey-bounds-helper/patch.diff"}, ("src/dewey.rs", "            if !dewey_cmp(pkgver, &m.op, &m.version) {\n                return false;\n            }\n        }\n        true", "            if dewey_cmp(pkgver, &m.op, &m.version) {\n                return true;\n            }\n        }\n        false")], "expect": ["D-CONJUNCTION"]},
+ {"id": "bounds-loop-in-helper-first-bound-only", "kind": "break", "edits": [{"patch": "/verif/benign/u-dewey-bounds-helper/patch.diff"}, ("src/dewey.rs", "        for m in &self.matches {\n            if !dewey_cmp(pkgver,", "        for m in self.matches.iter().take(1) {\n            if !dewey_cmp(pkgver,")], "expect": ["D-CONJUNCTION"]},
+ {"id": "bounds-loop-in-helper-result-ignored", "kind": "break", "edits": [{"patch": "/verif/benign/u-dewey-bounds-helper/patch.diff"}, ("src/dewey.rs", "        self.within_bounds(&pkgver)\n", "        self.within_bounds(&pkgver);\n        true\n")], "expect": ["D-CONJUNCTION"]},
 ]
